@@ -197,6 +197,10 @@ class ExprMixin:
                 and all(isinstance(i, Const) for i in b.items):
             r = a in b.items
             return Const(r if op == 'in' else not r)
+        if op in ('in', 'notin') and isinstance(a, Poly) and a.const_value() is not None and isinstance(b, Tup) \
+                and all(isinstance(i, Poly) and i.const_value() is not None for i in b.items):
+            r = any(i.const_value() == a.const_value() for i in b.items)
+            return Const(r if op == 'in' else not r)
         if isinstance(a, Poly) and isinstance(b, Poly):
             ca, cb = a.const_value(), b.const_value()
             if ca is not None and cb is not None:
@@ -338,6 +342,15 @@ class ExprMixin:
                 return Poly.const(0)
             if name == 'shape':
                 return Tup([])
+        if name == 'ndim' and isinstance(base, Poly) and base.single_atom() is not None and base.single_atom()[0] == 'idx':
+            ba = base.single_atom()
+            inner = self.apply_facts(nf.attr(Poly.atom(ba[1]), 'ndim'))
+            items = ba[2].items if isinstance(ba[2], Tup) and ba[2].kind != 'vec' else (ba[2],)
+            if isinstance(inner, Poly) and inner.const_value() is not None and \
+                    all(isinstance(i, (Slice, Const)) or (isinstance(i, Poly) and i.const_value() is not None) for i in items):
+                n_new = sum(1 for i in items if isinstance(i, Const) and i.value is None)
+                n_int = sum(1 for i in items if isinstance(i, Poly))
+                return inner + n_new - n_int
         pb = P(base)
         at = nf.attr(pb, name)
         key = at.single_atom()
